@@ -291,6 +291,15 @@ def build_c(unit, units, outdir, defines=()):
         inl.update(units[n].get('inline', []))
     b_used_contract = [n for n in used if n not in inl and units[n].get('kind') != 'stub' or (units[n].get('kind') == 'stub' and units[n]['sections'].get('signature', '').strip())]
     b_used_contract = [n for n in b_used_contract if n not in inl]
+    if unit.get('kind') == 'fragment' and unit['sections'].get('contract'):
+        # every free variable of the fragment must be covered by the contract text; a variable the contract does not know (the code now
+        # uses another local of the enclosing function) would be handed in as an unconstrained pointer and any failure would be an
+        # artefact of the harness -- the fragment's interface changed: extraction break (exit 2)
+        ctext_ = unit['sections']['contract'] + unit['sections'].get('prelude', '')
+        for p_ in main.get('params') or []:
+            pn_ = re.match(r'^(.*?)(\w+)$', p_.strip()).group(2)
+            if pn_ != 'self' and not re.search(r'\b%s\b' % re.escape(pn_), ctext_):
+                raise ExtractionBreak('fragment %s: interface changed -- free variable `%s` is not covered by the contract' % (unit['name'], pn_))
     body = splice(main['body'], unit['sections'], unit['name'])
 
     def named_call(m):
